@@ -151,17 +151,56 @@ pairs = [(0xFF00, d.CFindRSPMessage, 'Pending'), (0xFF01, d.CFindRSPMessage, 'Pe
 import inspect
 classes = sorted({c for c in vars(d).values() if inspect.isclass(c) and getattr(c, 'command_field', None) is not None},
                  key=lambda c: (c.command_field, c.__name__))
+# (a long-lived worker thread of the application classifies statuses too: it sees what the process has registered)
+import threading
+try:
+    import queue
+except ImportError:
+    import Queue as queue
+req, rsp = queue.Queue(), queue.Queue()
+def worker():
+    while True:
+        item = req.get()
+        if item is None:
+            return
+        rsp.put(statuses.Status(item[0], item[1]).status_type)
+thread = threading.Thread(target=worker)
+thread.daemon = True
+thread.start()
+def in_worker(code, cmd=None):
+    req.put((code, cmd))
+    return rsp.get(timeout=60)
+def in_main(code, cmd=None):
+    return statuses.Status(code, cmd).status_type
 for i, cls_ in enumerate(classes):
     code = 0x6100 + 0x10 * i
     before = statuses.Status(code, cls_).status_type
+    # every code involved has been looked up before (by the registering thread and by the worker), still unregistered
+    for c_ in range(code, code + 6):
+        for look in (in_main, in_worker):
+            look(c_, cls_)
+            look(c_)
     statuses.add_status(code, 'Warning', 'private warning', command=cls_)
     statuses.add_status(code + 1, 'Pending', 'private pending range', end=code + 4, command=cls_)
-    got = [statuses.Status(code, cls_).status_type, statuses.Status(code + 1, cls_).status_type,
-           statuses.Status(code + 4, cls_).status_type, statuses.Status(code + 5, cls_).status_type,
-           statuses.Status(code).status_type, statuses.Status(code, classes[(i + 1) %% len(classes)]).status_type]
-    want = ['Warning', 'Pending', 'Pending', before, before, before]
+    want = ['Warning', 'Pending', 'Pending', 'Pending', 'Pending', before, before, before]
+    for who, look in (('registering thread', in_main), ('another thread', in_worker)):
+        got = [look(code, cls_), look(code + 1, cls_), look(code + 2, cls_), look(code + 3, cls_),
+               look(code + 4, cls_), look(code + 5, cls_),
+               look(code), look(code, classes[(i + 1) %% len(classes)])]
+        if got != want:
+            bad.append('per-command registration for {0}: 0x{1:04X}.. classified {2} by {4}, expected {3} (all codes had been looked up before the registration)'.format(cls_.__name__, code, got, want, who))
+# general registrations (single code and range) made after the codes were looked up, seen from both threads
+for look in (in_main, in_worker):
+    for c_ in range(0x7100, 0x7108):
+        look(c_)
+        look(c_, d.CFindRSPMessage)
+statuses.add_status(0x7100, 'Warning', 'private general warning')
+statuses.add_status(0x7101, 'Pending', 'private general pending range', end=0x7106)
+for who, look in (('registering thread', in_main), ('another thread', in_worker)):
+    got = [look(c_) for c_ in range(0x7100, 0x7108)] + [look(0x7103, d.CFindRSPMessage)]
+    want = ['Warning'] + ['Pending'] * 6 + ['Failure', 'Pending']
     if got != want:
-        bad.append('per-command registration for {0}: 0x{1:04X}.. classified {2}, expected {3}'.format(cls_.__name__, code, got, want))
+        bad.append('per-command registration (general, after look-ups): 0x7100.. classified {0} by {1}, expected {2}'.format(got, who, want))
 # a status type given as a str SUBCLASS (an enum member, say) is the same type name
 class Kind(str):
     pass
